@@ -109,7 +109,7 @@ fn scenario(n: usize) {
 }
 
 //@ ob: C16.O2a
-//@ tier: quick
+//@ tier: thorough
 //@ cap: 1500
 //@ mem: 28
 //@ standins: tracing lru vcoll flume
@@ -129,7 +129,7 @@ fn c16_o2a_async_most_recent_n01() {
 }
 
 //@ ob: C16.O2b
-//@ tier: quick
+//@ tier: thorough
 //@ cap: 2400
 //@ mem: 28
 //@ standins: tracing lru vcoll flume
